@@ -314,3 +314,16 @@ example : readAll 2 ([Write.msg [], .msg [1, 2, 3]].map encodeWrite).flatten
   intro w hw
   simp only [List.mem_cons, List.mem_nil_iff, or_false] at hw
   rcases hw with rfl | rfl <;> exact C13_msg_ok _ (by decide)
+
+/-- **Several writers on one stream.**  The frame writer takes the stream's write lock for a whole
+frame, so whatever order concurrent `WriteMsg` calls win that lock in, the bytes on the wire are
+the frames of the written messages in *some* order (`ws'` a permutation of `ws`) — and the reader
+then reads every written message exactly once, intact: its reads are the same permutation of what
+was written.  Nothing is lost, doubled or mixed. -/
+theorem C13_concurrent_writers (ws ws' : List Write) (hperm : ws'.Perm ws)
+    (h : ∀ w ∈ ws, C13_WriteOk w) (fuel : Nat) (hf : ws.length ≤ fuel) :
+    readAll fuel (ws'.map encodeWrite).flatten = ws'.map expected ∧
+    (readAll fuel (ws'.map encodeWrite).flatten).Perm (ws.map expected) := by
+  have h' : ∀ w ∈ ws', C13_WriteOk w := fun w hw => h w (hperm.subset hw)
+  have hr := C13_sequence_roundtrip ws' h' fuel (by rw [hperm.length_eq]; exact hf)
+  exact ⟨hr, by rw [hr]; exact hperm.map expected⟩
